@@ -616,6 +616,8 @@ class Rolling:
                 raise ValueError("min_periods must be >= 0")
         self.mp = mp
         ex = _ex.current()
+        if any(getattr(t, "f", None) is not None for t in s.index.arr.a):
+            raise Unsupported("rolling window over sub-second timestamps")
         ts = [t.s for t in s.index.arr.a]
         for a, b in zip(ts, ts[1:]):
             ex.side_condition(a < b, "rolling over a non-increasing time index")
@@ -737,16 +739,24 @@ def _epoch_scalar(x):
     if isinstance(x, STime):
         return x
     if isinstance(x, SFloat):
-        _ex.current().side_condition(mk_or(x.nan, z3.IsInt(x.v)), "fractional epoch seconds")
-        return STime(z3.ToInt(x.v), x.nan)
+        if z3.is_rational_value(x.v) or z3.is_int_value(x.v):
+            from .values import _numval
+            q = _numval(x.v)
+            import math
+            fl = math.floor(q)
+            return STime(int(fl), x.nan, rv(q - fl) if q != fl else None)
+        whole = z3.simplify(z3.ToInt(x.v))
+        frac = z3.simplify(x.v - z3.ToReal(whole))
+        return STime(whole, x.nan, frac)
     if isinstance(x, SInt):
         return STime(x.v)
     if isinstance(x, float):
         if x != x:
             return STime(0, TRUE)
-        if x != int(x):
-            raise Unsupported("fractional epoch seconds")
-        return STime(int(x))
+        import math
+        from fractions import Fraction
+        fl = math.floor(x)
+        return STime(int(fl), FALSE, rv(Fraction(x) - fl) if x != fl else None)
     if isinstance(x, (int, _np.integer)):
         return STime(int(x))
     raise Unsupported(f"epoch seconds from {type(x).__name__}")
